@@ -189,6 +189,40 @@ def import_family(ctx, rng, n_valid, n_mut=0, only=None, what="T3 correspondence
     return ok
 
 
+def import_tree_family(ctx, rng, n, shapes=None, reversed_too=False,
+                       what="T3 correspondence: whole validator on import trees (files that import files) vs Coq model (Model/ImportsDeep.v)", do_report=True):
+    """Conformant import TREES (generated files that import generated files; diamonds: one file reached by two import
+    entries, each with its own connections), optionally each also with the root's `imports` array reversed; compared
+    with Model/ImportsDeep.v and reported under the calling property.  -> (evaluated, items)"""
+    import random, os
+    import imports_deep as D
+    items = []
+    for k in range(n):
+        case = D.gen_valid_deep(rng, threads=(k % 4 == 3), shape=(shapes[k % len(shapes)] if shapes else None))
+        for f in case["files"].values():
+            f["file"] = None
+        seed = rng.randrange(1 << 30)
+        sp = ["id", "mixed", "alias"][k % 3]
+        for v in range(2 if reversed_too else 1):
+            r = {"spelling": sp, "shuffle": False, "seed": seed, "root_imports": "as generated" if v == 0 else "reversed"}
+            doc = D.render_deep(case, ctx.repo_copy, random.Random(seed), sp, False)
+            if v == 1:
+                doc["imports"] = doc["imports"][::-1]
+            r["imported_files"] = {}
+            for f in case["files"].values():
+                try:
+                    r["imported_files"][f["file"]] = json.load(open(os.path.join(ctx.repo_copy, "schemas", f["file"] + ".json")))
+                except Exception:
+                    r["imported_files"][f["file"]] = None
+            items.append(Item(case, doc, "valid-import-tree", owner=ctx.prop, render=r, group="tree%d" % k))
+    ok = run_items_grouped(ctx, items, coq_file_fn=D.coq_cases_file_deep, chunk=6)
+    for it in items:
+        it.scenario = D.strip(it.scenario)
+    if do_report:
+        report(ctx, items, what)
+    return ok, items
+
+
 def sample_of(items, k=3):
     out = []
     for it in items[:k]:
